@@ -185,9 +185,10 @@ func (s *sshProxyService) Handle(ctx context.Context, conn net.Conn) error {
 			event.Custom("ssh.channel-type", newChannel.ChannelType()),
 		))
 
+		// requestFn does not close dst: a channel is closed by the data copy
+		// below once everything read before the peer's close has been written,
+		// never underneath it
 		requestFn := func(in <-chan *ssh.Request, dst ssh.Channel) {
-			defer dst.Close()
-
 			for req := range in {
 				log.Debugf("Request: %s %s %s %s\n", dst, req.Type, req.WantReply, req.Payload)
 
@@ -242,16 +243,20 @@ func (s *sshProxyService) Handle(ctx context.Context, conn net.Conn) error {
 		}
 
 		go requestFn(requests, channel2)
-		go requestFn(requests2, channel)
 
-		copyFn := func(dst io.ReadWriteCloser, src io.ReadCloser) {
+		// the backend's requests (exit-status) end when it closes its channel
+		requests2Done := make(chan struct{})
+		go func() {
+			requestFn(requests2, channel)
+			close(requests2Done)
+		}()
+
+		copyFn := func(dst io.Writer, src io.Reader) {
 			_, err := io.Copy(dst, src)
 			if err == io.EOF {
 			} else if err != nil {
 				log.Error(err.Error())
 			}
-
-			dst.Close()
 		}
 
 		var wrappedChannel io.ReadCloser = channel
@@ -259,8 +264,17 @@ func (s *sshProxyService) Handle(ctx context.Context, conn net.Conn) error {
 		twrc := NewTypeWriterReadCloser(channel2)
 		var wrappedChannel2 io.ReadCloser = twrc
 
-		go copyFn(channel2, wrappedChannel)
+		go func() {
+			copyFn(channel2, wrappedChannel)
+			channel2.Close()
+		}()
+
 		copyFn(channel, wrappedChannel2)
+
+		// the backend is done sending: let its last requests through, then close
+		channel.CloseWrite()
+		<-requests2Done
+		channel.Close()
 
 		s.c.Send(event.New(
 			services.EventOptions,
